@@ -34,6 +34,13 @@ def _b_skip(step, env):
     return skipper
 
 
+@core.builder('c05_checkpoint_steps')
+def _b_cp_steps(step, env):
+    def passthrough(rows):
+        yield from rows
+    return core.dataflows.checkpoint('cps%d' % env.pos, checkpoint_path=env.path('checkpoints2'), steps=[passthrough])
+
+
 @core.builder('c05_tracer')
 def _b_tracer(step, env):
     def tracer(rows):
@@ -119,6 +126,10 @@ OBSERVERS = {
     'dump_zip_nocounters_json': S('dump_to_zip', {'$path': 'outnc.zip'}, format='json',
                                   counters={'datapackage-bytes': None, 'resource-bytes': None, 'resource-hash': None,
                                             'datapackage-hash': None}),
+    # a checkpoint given an explicit (pass-through) sub-chain of its own
+    'checkpoint_steps': {'op': 'c05_checkpoint_steps'},
+    # the format follows each resource's own extension; resources with an unknown extension are documented to be left out
+    'dump_noforce': S('dump_to_path', {'$path': 'dumpnf'}, force_format=False),
     # two file dumpers of different formats in one pipeline, both seeing the same resources
     'dump_csv+dump_json': {'op': 'flow', 'steps': [S('dump_to_path', {'$path': 'dump2c'}),
                                                     S('dump_to_path', {'$path': 'dump2j'}, format='json')],
@@ -127,6 +138,7 @@ OBSERVERS = {
                                                     S('dump_to_zip', {'$path': 'out3.zip'})],
                            'positions': [50, 50]},
 }
+OBS_INITIAL_ONLY = {'dump_noforce', 'checkpoint_steps', 'dump_nocounters', 'dump_zip_nocounters_json', 'dump_json+dump_zip'}
 OBS_POS = 50
 
 # descriptor properties a file dumper documents as its serialisation additions
@@ -201,7 +213,7 @@ def run_pipeline(prefix_state, steps, positions, decode=None, twice=False):
         return out
 
 
-def decode_dump(root):
+def decode_dump(root, allow_discarded=False):
     """Independent decode (csv/json std modules + tableschema casts driven by the written descriptor only)."""
     import tableschema
     p = os.path.join(root, 'datapackage.json')
@@ -211,6 +223,8 @@ def decode_dump(root):
     names, allrows = [], []
     for r in desc['resources']:
         fp = os.path.join(root, r['path'])
+        if allow_discarded and 'format' not in r and not os.path.exists(fp):
+            continue          # a resource whose extension names no writer: documented as discarded
         if not os.path.exists(fp):
             return ('incomplete', 'descriptor lists %s which was never written' % r['path'])
         mv = r['schema'].get('missingValues', [''])
@@ -231,7 +245,7 @@ def decode_dump(root):
         allrows.append(rows_norm(rows))
         if 'count_of_rows' in r and r['count_of_rows'] != len(rows):
             return ('incomplete', 'descriptor reports %r rows for %s, the file holds %d' % (r['count_of_rows'], r['name'], len(rows)))
-    if 'count_of_rows' in desc and desc['count_of_rows'] != sum(len(r) for r in allrows):
+    if not allow_discarded and 'count_of_rows' in desc and desc['count_of_rows'] != sum(len(r) for r in allrows):
         return ('incomplete', 'descriptor reports %r rows in total, the files hold %d' % (desc['count_of_rows'], sum(len(r) for r in allrows)))
     return ('package', names, allrows)
 
@@ -296,6 +310,8 @@ def decode_for(obs):
         'finalizer': d_fin, 'update_stats': lambda e, o: ('stats', o.get('stats')), 'validate': lambda e, o: None,
         'dump+finalizer_stats': lambda e, o: ('finstats', [x[1] for x in o['log'] if x[0] == 'finstats']),
         'dump_nocounters': lambda e, o: d_path(e, o, 'dumpnc'),
+        'dump_noforce': lambda e, o: decode_dump(e.path('dumpnf'), allow_discarded=True),
+        'checkpoint_steps': lambda e, o: d_stream(e, o, 'checkpoints2/cps%d/stream.ndjson' % OBS_POS),
         'dump_zip_nocounters_json': lambda e, o: d_zip(e, o, 'outnc.zip'),
         'dump_csv+dump_json': lambda e, o: ('multi', [d_path(e, o, 'dump2c'), d_path(e, o, 'dump2j')]),
         'dump_json+dump_zip': lambda e, o: ('multi', [d_path(e, o, 'dump3j'), d_zip(e, o, 'out3.zip')]),
@@ -308,7 +324,11 @@ def expected_capture(obs, P):
                'dump_zip_nocounters_json'):
         rs = core.materialise(core.from_state(P), via='results')
         return ('package', P.names(), [rows_norm(r) for r in rs.rows])
-    if obs in ('stream', 'checkpoint'):
+    if obs == 'dump_noforce':
+        keep = [i for i, r in enumerate(P.desc['resources']) if os.path.splitext(r.get('path', ''))[1] in ('.csv', '.json')]
+        rs = core.materialise(core.from_state(P), via='results')
+        return ('package', [P.names()[i] for i in keep], [rows_norm(rs.rows[i]) for i in keep])
+    if obs in ('stream', 'checkpoint', 'checkpoint_steps'):
         return ('stream', P.desc, [rows_norm(r) for r in P.rows])
     if obs == 'printer':
         tables = []
@@ -415,6 +435,8 @@ def run_prefix(task):
     seen = set()
     for suffix in task['suffixes']:
         for obs in OBSERVERS:
+            if obs in OBS_INITIAL_ONLY and not task.get('initial'):
+                continue          # option variants of the dumpers / checkpoint: on the initial packages only
             for pos in range(len(suffix) + 1):
                 case = {'prefix': prefix, 'suffix': suffix, 'obs': obs, 'pos': pos}
                 viol, outcome, nontrivial = check_case(case)
@@ -450,6 +472,9 @@ def run_prefix(task):
     return out
 
 
+INITIAL_KEYS = set()
+
+
 def prefix_states(depth):
     states = {}
     inits = e1.initials()
@@ -462,10 +487,16 @@ def prefix_states(depth):
     for r, pth in zip(p6.desc['resources'], ('sales.2019.csv', 'sales.2020.csv', 'sales.v1.0')):
         r['path'] = pth
     inits['P6'] = State(p6.desc, p6.rows)
-    for name in ('P0', 'P1', 'P5', 'P6'):
+    # the first resource's extension names no writer, the others name different ones
+    p7 = copy.deepcopy(inits['P0'])
+    for r, pth in zip(p7.desc['resources'], ('r1.tsv', 'r2.json', 'r3.csv')):
+        r['path'] = pth
+    inits['P7'] = State(p7.desc, p7.rows)
+    for name in ('P0', 'P1', 'P5', 'P6', 'P7'):
         st = inits[name]
         states[st.key()] = st
-        if name != 'P6':          # P6 differs from P0 in its paths only: its successors add nothing
+        INITIAL_KEYS.add(st.key())
+        if name not in ('P6', 'P7'):          # P6/P7 differ from P0 in their paths only: their successors add nothing
             frontier.append(st)
     for _ in range(depth):
         nxt = []
@@ -495,7 +526,7 @@ def run(run):
     chunk = 6 if run.tier == 'quick' else 12
     for key, st in states.items():
         for i in range(0, len(suffixes), chunk):
-            tasks.append({'pkey': key, 'prefix': st.to_json(), 'suffixes': suffixes[i:i + chunk]})
+            tasks.append({'pkey': key, 'prefix': st.to_json(), 'suffixes': suffixes[i:i + chunk], 'initial': key in INITIAL_KEYS})
     k = run.seed % len(tasks)
     tasks = tasks[k:] + tasks[:k]
     for res in run.map(run_prefix, tasks, chunksize=1, limit=1800):
